@@ -162,3 +162,77 @@ func (g *Global) verifyLemma(name string) (res *FuncResult) {
 }
 
 var _ = types.Typ
+
+// verifyStable proves the stability lemma of an opaque spec: its value does not change when the heap is extended by
+// allocations (every heap variable it reads is replaced by a version that agrees on all references allocated before).
+func (g *Global) verifyStable(name string) (res *FuncResult) {
+	key := "stable." + name
+	res = &FuncResult{Key: key}
+	sd := g.contracts.Specs[name]
+	if sd == nil || !sd.Opaque {
+		res.Err = fmt.Errorf("unknown opaque spec %s", name)
+		return
+	}
+	tr := newTr(g, nil, key, nil)
+	res.Tr = tr
+	defer func() {
+		if r := recover(); r != nil {
+			if se, ok := r.(subsetErr); ok {
+				res.Err = fmt.Errorf("%s: %v (clause %.200s)", key, se, tr.curClause)
+				return
+			}
+			res.Err = fmt.Errorf("%s: internal error: %v while evaluating %.300s", key, r, tr.curClause)
+			res.Stack = string(debug.Stack())
+		}
+	}()
+	tr.sc.declare("|top@0|", "() Int")
+	tr.sc.fact("(< 0 |top@0|)")
+	st0 := &State{vars: map[string]Value{}, top: "|top@0|", guard: "true"}
+	tr.oldState = st0
+	env0 := &CEnv{vars: map[string]EV{}, st: st0, old: st0, pkg: g.pkgOfFile(sd.File)}
+	for _, p := range sd.Params {
+		pt := tr.resolveCType(env0, p.Typ)
+		if p.Typ.Name == "int" && !p.Typ.Ptr && !p.Typ.Slice && p.Typ.Key == nil {
+			env0.vars[p.Name] = EV{V: Sc{T: tr.freshSym(p.Name, false)}, T: nil}
+			continue
+		}
+		env0.vars[p.Name] = EV{V: tr.freshValue(pt, p.Name, st0), T: pt}
+	}
+	tr.specMode++
+	v0, _ := tr.evalC(env0, sd.Body)
+	tr.specMode--
+	// second state: every heap variable read so far gets an allocation-extended version
+	st1 := &State{vars: map[string]Value{}, guard: "true"}
+	nt := tr.freshSym("top", false)
+	tr.sc.fact(sLe("|top@0|", nt))
+	st1.top = nt
+	for _, name := range sortedKeys(tr.heapSorts) {
+		sort := tr.heapSorts[name]
+		old := tr.initVars[name].(Sc).T
+		tr.fresh++
+		sym := smtName(fmt.Sprintf("%s@%d", name, tr.fresh))
+		tr.sc.declare(sym, "() "+sort)
+		tr.sc.fact(fmt.Sprintf("(forall ((r Int)) (! (=> (< r |top@0|) (= (select %s r) (select %s r))) :pattern ((select %s r))))", sym, old, sym))
+		st1.vars[name] = Sc{T: sym}
+		tr.symTop[sym] = nt
+		tr.allocParent[sym] = old
+		tr.heapVersionAxiom(name, sym, sort, nt)
+	}
+	tr.noteFrameTop("|top@0|")
+	env1 := &CEnv{vars: env0.vars, st: st1, old: st1, pkg: env0.pkg}
+	tr.specMode++
+	v1, _ := tr.evalC(env1, sd.Body)
+	tr.specMode--
+	// heap variables first touched while evaluating in the second state are unconstrained in both: relate them too
+	s0, ok0 := v0.(Sc)
+	s1, ok1 := v1.(Sc)
+	if !ok0 || !ok1 {
+		panic(subsetErr("stable: opaque spec must be scalar"))
+	}
+	goal := sEq(s0.T, s1.T)
+	if s0.Bool {
+		goal = sImp(s0.T, s1.T)
+	}
+	tr.oblige(st1, "stable", name, nil, goal, "opaque spec "+name+" is stable under allocation (its definition only reads objects allocated before)")
+	return
+}
